@@ -293,8 +293,12 @@ def build_axil_conv_proto(dwm, dws, K):
     top.sync += [If((hs(mbus.b) & (mbus.b.resp != RESP_OKAY)) | (hs(mbus.r) & (mbus.r.resp != RESP_OKAY)), se1.eq(1)),
                  If((hs(mbus.b) & (mbus.b.resp == RESP_OKAY)) | (hs(mbus.r) & (mbus.r.resp == RESP_OKAY)), so1.eq(1))]
     top.comb += w.eq(se1 & so1)
+    # excuse for the listed up-converter finding: write data is never offered before its address
+    exc = Signal(name_override="exc_w_not_before_aw")
+    top.comb += exc.eq(~mbus.w.valid | (n["w"] < n["aw"]) | mbus.aw.valid)
     return H("axilite_conv_%dto%d_proto" % (dwm, dws), top, me.free + se.free, assume=[me.asm, me.no_ovf, se.asm, se.no_ovf, single],
              bad=dict(valid_held=bs, error_responses_propagated=be, no_response_without_request=once), witness=dict(error_and_ok_responses=w), K=K, funcs=FUNCS,
+             excuses=dict(valid_held=[exc]),
              cfg=dict(master_width=dwm, slave_width=dws, partner="free AXI-Lite slave with error responses"),
              show=[mbus.aw.valid, mbus.w.valid, mbus.b.valid, mbus.b.resp, mbus.ar.valid, mbus.r.valid, mbus.r.resp, sbus.aw.valid, sbus.w.valid, sbus.b.valid, sbus.b.resp, sbus.ar.valid, sbus.r.valid, sbus.r.resp],
              vcycles=30, timeout_s=2400)
@@ -318,7 +322,7 @@ def jobs(tier):
                Job("wishbone2axilite_d32_base40", build_wb2axil, dict(dw=32, depth=4, K=K, base=0x40), cost=8),
                Job("wishbone2axilite_d64_base40", build_wb2axil, dict(dw=64, depth=2, K=K, base=0x40), cost=8),
                Job("axilite_conv_32to8", build_axil_conv, dict(dwm=32, dws=8, depth_s=16, K=24), cost=40, timeout_s=3400),
-               Job("axilite_conv_64to8", build_axil_conv, dict(dwm=64, dws=8, depth_s=16, K=30), cost=60, timeout_s=3400),
+               Job("axilite_conv_64to8", build_axil_conv, dict(dwm=64, dws=8, depth_s=16, K=46), cost=200, timeout_s=5000),
                Job("axilite_conv_8to32", build_axil_conv, dict(dwm=8, dws=32, depth_s=4, K=K), cost=10),
                Job("axilite_conv_32to8_proto", build_axil_conv_proto, dict(dwm=32, dws=8, K=K + 2), cost=20, timeout_s=3400),
                Job("axilite_conv_8to32_proto", build_axil_conv_proto, dict(dwm=8, dws=32, K=K), cost=10)]
